@@ -154,13 +154,13 @@ Section Field.
 End Field.
 
 Lemma enter_inv : forall s old cur, enter s old = Ok cur ->
-  exists b, check_backend (s_backend s) old = Ok b /\
+  exists b, check_backend s old = Ok b /\
   c_backend cur = ov b (c_backend old) /\ c_njobs cur = ov (s_njobs s) (c_njobs old) /\
   c_verbose cur = ov (s_verbose s) (c_verbose old) /\ c_temp cur = ov (s_temp s) (c_temp old) /\
   c_maxnb cur = ov (s_maxnb s) (c_maxnb old) /\ c_mmap cur = ov (s_mmap s) (c_mmap old) /\
   c_prefer cur = ov (s_prefer s) (c_prefer old) /\ c_require cur = ov (s_require s) (c_require old).
 Proof.
-  intros s old cur. unfold enter. destruct (check_backend (s_backend s) old) as [b|]; cbn [bind]; [|discriminate].
+  intros s old cur. unfold enter. destruct (check_backend s old) as [b|]; cbn [bind]; [|discriminate].
   intros H; inversion H; subst; cbn. exists b. repeat split; reflexivity.
 Qed.
 
@@ -172,7 +172,9 @@ Lemma enter_kind : forall s old cur, enter s old = Ok cur ->
   option_map ck (c_backend cur) = ov (spec_kind s) (option_map ck (c_backend old)).
 Proof.
   intros s old cur H. destruct (enter_inv _ _ _ H) as (b & Hb & Hbk & _). rewrite Hbk. unfold spec_kind.
-  unfold check_backend in Hb. destruct (s_backend s) as [[k l|]|]; inversion Hb; subst; reflexivity.
+  unfold check_backend in Hb. destruct (s_backend s) as [[k l|]|];
+    repeat match type of Hb with context [if ?c then _ else _] => destruct c end;
+    inversion Hb; subst; reflexivity.
 Qed.
 
 Ltac field_lemma :=
@@ -375,7 +377,8 @@ Proof. intros. rewrite parallel_init_src_eq_dk. reflexivity. Qed.
 (* ---------------------------------------------------------------- statements of Props/C17.v (the file Props/C17.v only restates them and closes each with `exact`) *)
 Definition spec_empty : cspec :=
   {| s_backend := None; s_njobs := None; s_verbose := None; s_temp := None; s_maxnb := None; s_mmap := None;
-     s_prefer := None; s_require := None |}.
+     s_prefer := None; s_require := None;
+     s_byname := false; s_inner := None; s_params := false |}.
 
 Definition args_empty : pargs :=
   {| a_njobs := None; a_backend := None; a_verbose := None; a_temp := None; a_maxnb := None; a_mmap := None;
@@ -383,7 +386,8 @@ Definition args_empty : pargs :=
 
 Definition F16_spec : cspec :=
   {| s_backend := None; s_njobs := Some (Some 2); s_verbose := None; s_temp := None; s_maxnb := None; s_mmap := None;
-     s_prefer := None; s_require := None |}.
+     s_prefer := None; s_require := None;
+     s_byname := false; s_inner := None; s_params := false |}.
 
 Definition F16_args : pargs :=
   {| a_njobs := None; a_backend := None; a_verbose := None; a_temp := None; a_maxnb := None; a_mmap := None;
@@ -391,7 +395,8 @@ Definition F16_args : pargs :=
 
 Definition F17_spec : cspec :=
   {| s_backend := None; s_njobs := None; s_verbose := None; s_temp := None; s_maxnb := None; s_mmap := None;
-     s_prefer := None; s_require := Some 1 |}.
+     s_prefer := None; s_require := Some 1;
+     s_byname := false; s_inner := None; s_params := false |}.
 
 Definition F17_args : pargs :=
   {| a_njobs := Some (Some 2); a_backend := Some (BInst BLoky None); a_verbose := None; a_temp := None; a_maxnb := None;
@@ -606,4 +611,52 @@ Proof.
   - intros Hp Hr. assert (prefer =? 1 = false) as E1 by lia. assert (prefer =? 2 = false) as E2 by lia.
     assert (require =? 1 = false) as E3 by lia. rewrite E1, E2, E3 in *. cbn in Hb, Hctx. rewrite ?orb_false_r in *.
     split; assumption.
+Qed.
+
+(* -------------------------------------------------------------------- rejected constructions *)
+(* the constructions parallel_config / parallel_backend refuse (whatever the current configuration is) *)
+Definition rejected (s : cspec) : bool :=
+  match s_backend s with
+  | None => is_some (s_inner s) || s_params s
+  | Some BInvalid => true
+  | Some (BInst k _) => (negb (s_byname s) && s_params s) || (is_some (s_inner s) && negb (supports_inner k))
+  end.
+
+Lemma enter_rejected_iff : forall s old, (exists e, enter s old = Raise e) <-> rejected s = true.
+Proof.
+  intros s old. unfold enter, check_backend, rejected.
+  destruct (s_backend s) as [[k l|]|]; cbn [bind];
+    repeat match goal with |- context [if ?c then _ else _] => destruct c eqn:? end; cbn [bind orb andb negb] in *;
+    split; intros H; try reflexivity; try discriminate; try (destruct H; discriminate); try (eexists; reflexivity).
+Qed.
+
+(* a failed construction changes NOTHING: the thread keeps its configuration, its stack of open blocks and its
+   observations; only the exception propagates (the new settings are installed as the last statement of __init__) *)
+Lemma failed_construction_identity : forall m s body c k tr,
+  rejected (norm_spec m s) = true ->
+  step (mk c (Run (PWith m s body)) k tr) = mk c Throw k tr.
+Proof.
+  intros m s body c k tr H. destruct (proj2 (enter_rejected_iff (norm_spec m s) c) H) as [e He].
+  unfold step. cbn [t_ctl t_cur t_stack t_trace mk]. rewrite He. reflexivity.
+Qed.
+
+(* ... for a thread among others, under any schedule in which it takes exactly that one step *)
+Lemma failed_construction_any_schedule : forall g t m s body c k tr sched,
+  g t = mk c (Run (PWith m s body)) k tr -> rejected (norm_spec m s) = true -> count_tid t sched = 1%nat ->
+  grun sched g t = mk c Throw k tr.
+Proof.
+  intros g t m s body c k tr sched Hg Hr Hc. rewrite grun_local, Hc, Hg. cbn [iter].
+  apply failed_construction_identity, Hr.
+Qed.
+
+(* and every later Parallel(...) of the thread resolves exactly as it would have without the failed call:
+   `try: with <rejected>: body  except: pass` followed by p behaves as p alone (same configuration, same observations) *)
+Lemma failed_construction_invisible : forall m s body p c k tr n,
+  rejected (norm_spec m s) = true ->
+  iter (5 + n) (mk c (Run (PSeq (PTry (PWith m s body)) p)) k tr) = iter n (mk c (Run p) k tr).
+Proof.
+  intros m s body p c k tr n H.
+  apply (iter_compose 5 n _ (mk c (Run p) k tr)); [|reflexivity].
+  apply (iter_compose 2 3 _ (mk c (Run (PWith m s body)) (FTry :: FSeq p :: k) tr)); [reflexivity|].
+  cbn [iter]. rewrite (failed_construction_identity _ _ _ _ _ _ H). reflexivity.
 Qed.
